@@ -161,7 +161,7 @@ func TestLegacyDigest(t *testing.T) {
 		var tx *wire.Tx
 		var q req
 		var nsep int
-		if rapid.IntRange(0, 399).Draw(r.T, "boundary") == 0 {
+		if oneIn(r.T, "boundary", 200) {
 			var label string
 			tx, _, q, label = genBoundary(r.T, "legacy")
 			nsep = bytes.Count(unhx(q.Code), []byte{0xab})
@@ -185,7 +185,7 @@ func TestBIP143Digest(t *testing.T) {
 		var tx *wire.Tx
 		var q req
 		var nsep int
-		if rapid.IntRange(0, 399).Draw(r.T, "boundary") == 0 {
+		if oneIn(r.T, "boundary", 200) {
 			var label string
 			tx, _, q, label = genBoundary(r.T, "bip143")
 			nsep = bytes.Count(unhx(q.Code), []byte{0xab})
@@ -209,7 +209,7 @@ func TestBIP341Digest(t *testing.T) {
 		var c digestCase
 		var tx *wire.Tx
 		var q req
-		if rapid.IntRange(0, 399).Draw(r.T, "boundary") == 0 {
+		if oneIn(r.T, "boundary", 200) {
 			var sp []spentOut
 			var label string
 			tx, sp, q, label = genBoundary(r.T, "bip341")
